@@ -46,6 +46,18 @@ CHECKS = {
         text="Exhaustive within the bound. An empty locator is accepted as either 'nothing' (the repository's own test pins an error) or the from-height-1 answer. The wire-level path (OnGetHeaders / handleGetHeadersMsg) is exercised by the netwalk engine, not here.",
         design="§3 C13, §3a",
     ),
+    "C05": dict(
+        engine="crashwalk", category="fault_enumeration",
+        technique="exhaustive crash-point and fault enumeration: for every ingestion history (every arrival order of every blueprint within the bound) and every write call on repository.Headers, kill ingestion before that write or make it fail; restart with database.Init on the same file; structural and acknowledged-header checks; redelivery (same order, and every order for N<=3) compared with the reference model. The fail variant is also driven through the real handleHeadersMsg of both sync engines (in-package driver)",
+        text="Exhaustive within the bound: N<=3 all histories x all redelivery orders, N=4 reorganising histories (quick); N=5 reorganising histories (thorough). Each production write is its own SQLite transaction, so the write-call boundaries are exactly the crash states at transaction granularity; torn pages inside a transaction are SQLite's guarantee (trusted).",
+        design="§3 C05, §2 E2",
+    ),
+    "C17": dict(
+        engine="crashwalk", category="fault_enumeration",
+        technique="exhaustive enumeration: export->import round trip of every final store of every arrival order of every blueprint within the bound, and every single-field corruption (5 replacement values per cell, row deleted/duplicated, column added/removed, header line removed) of exported files of 2, 4 and 1203 rows, each followed by two further starts on the same database",
+        text="Exhaustive within the bound (N=3 quick / N=4 thorough stores; corruption at every row of the short chains and at the batch-boundary rows of the long one; checkpoint at the tip and mid-chain). Gzip-level corruption and Postgres are not covered. A duplicated row at/above the checkpoint yields a consistent longer chain and is not required to be refused.",
+        design="§3 C17",
+    ),
 }
 
 NOT_YET = "check not built yet in this session (work in progress; see DESIGN.md §7 for the order of work)"
@@ -99,6 +111,8 @@ def main():
 NA = {}
 
 ENGINES = [
+    {"name": "crashwalk", "path": "harness/crashwalk", "serves_properties": ["C05", "C17"],
+     "kind_free_text": "crash-point / storage-fault enumeration at the repository write boundary with restart (database.Init) and redelivery; import/export corruption matrix"},
     {"name": "storewalk", "path": "harness/storewalk", "serves_properties": ["C01", "C02", "C03", "C04", "C08", "C13"],
      "kind_free_text": "explicit-state DFS over reachable header stores; successor = file copy of the parent's SQLite store + one real Chains.Add"},
 ]
